@@ -433,3 +433,49 @@ pub fn now_secs() -> f64 {
     use std::time::{SystemTime, UNIX_EPOCH};
     SystemTime::now().duration_since(UNIX_EPOCH).map(|d| d.as_secs_f64()).unwrap_or(0.0)
 }
+
+// ---------------------------------------------------------------------------------------------
+// file names that are not UTF-8
+// ---------------------------------------------------------------------------------------------
+//
+// Scenarios are JSON, so their path strings are UTF-8. A character from the private-use range
+// U+F800..U+F8FF stands for the single byte 0x00..0xFF when the string becomes a real path: the
+// name on the disk is then not valid UTF-8 (a Latin-1 "Ger\xe4te", say). Text *inside* files
+// stays UTF-8, so such names occur only where no file has to spell them.
+
+pub fn raw_byte_char(b: u8) -> char {
+    char::from_u32(0xF800 + b as u32).unwrap()
+}
+
+pub fn has_raw(s: &str) -> bool {
+    s.chars().any(|c| ('\u{F800}'..='\u{F8FF}').contains(&c))
+}
+
+/// The OS string a scenario string stands for.
+pub fn os(s: &str) -> std::ffi::OsString {
+    use std::os::unix::ffi::OsStringExt;
+    let mut v: Vec<u8> = Vec::with_capacity(s.len());
+    for c in s.chars() {
+        if ('\u{F800}'..='\u{F8FF}').contains(&c) {
+            v.push((c as u32 & 0xFF) as u8);
+        } else {
+            let mut b = [0u8; 4];
+            v.extend_from_slice(c.encode_utf8(&mut b).as_bytes());
+        }
+    }
+    std::ffi::OsString::from_vec(v)
+}
+
+pub fn pb(s: &str) -> PathBuf {
+    PathBuf::from(os(s))
+}
+
+/// What `to_string_lossy` makes of the path a scenario string stands for.
+pub fn lossy(s: &str) -> String {
+    s.chars().map(|c| if ('\u{F800}'..='\u{F8FF}').contains(&c) { '\u{FFFD}' } else { c }).collect()
+}
+
+/// Replace the raw-byte characters by plain letters (a scenario that cannot have such names).
+pub fn deraw(s: &str) -> String {
+    s.chars().map(|c| if ('\u{F800}'..='\u{F8FF}').contains(&c) { 'a' } else { c }).collect()
+}
